@@ -565,7 +565,10 @@ mod huffman {
             tree.push(heap.pop().unwrap().1);
 
             let mut levels = Vec::with_capacity(1 + tree.len() / 2);
-            let mut todo = vec![(tree.last().unwrap(), 0)];
+            // A lone symbol still needs one bit, otherwise items would occupy no bits at all and
+            // could not be told apart by their bit ranges.
+            let single = tree.len() == 1;
+            let mut todo = vec![(tree.last().unwrap(), usize::from(single))];
             while let Some((node, level)) = todo.pop() {
                 match node {
                     Node::Leaf(sym) => {
@@ -589,6 +592,10 @@ mod huffman {
                 }
                 encode.insert(sym.clone(), (level, code));
                 Self::insert_decode(&mut decode, sym, level, code << (64 - level));
+                if single {
+                    // The unused code `1` decodes to the only symbol, too: the map has no voids.
+                    Self::insert_decode(&mut decode, sym, level, 1 << 63);
+                }
 
                 code += 1;
             }
